@@ -3,14 +3,17 @@
 (*   services : service name -> set of handler keys (entry present iff the    *)
 (*              name is in `present`)                                         *)
 (*   handlers : the keys that currently have a handler                        *)
+(* Several service types may register under one name (service_name() can be  *)
+(* overridden); remove_service(name) removes whatever was added under it.     *)
 (* A handler key is hash("/service/message"); the model uses the pair itself  *)
 (* (the hash is assumed collision free on the names in use).                  *)
 (* FixD1 = FALSE models the pinned code, whose remove_handlers kept exactly   *)
 (* the removed service's handlers (retain predicate inverted).                *)
 EXTENDS Naturals, Sequences, FiniteSets, TLC, Json
 
-CONSTANTS Services,   \* service names
-          Handles,    \* service -> set of message names it registers
+CONSTANTS Services,   \* service types (Rust types implementing RpcService)
+          NameOf,     \* service type -> the name it registers under (two types may share a name)
+          Handles,    \* service type -> set of message names it registers
           AllMsgs,    \* every message name a client may send
           MaxLen, FixD1, EmitHist,
           WithInFlight   \* TRUE: requests may be held inside their handler while services are added / removed
@@ -22,10 +25,11 @@ VARIABLES services, present, handlers,
           exps      \* oracle: expected served (service, message) pairs after each step
 vars == <<services, present, handlers, held, reg, hist, exps>>
 
-Keys(s) == { <<s, m>> : m \in Handles[s] }
+Names == { NameOf[t] : t \in Services }
+Keys(t) == { <<NameOf[t], m>> : m \in Handles[t] }
 
 Init ==
-  /\ services = [s \in Services |-> {}]
+  /\ services = [n \in Names |-> {}]
   /\ present = {}
   /\ held = {}
   /\ handlers = {}
@@ -34,15 +38,15 @@ Init ==
   /\ exps = <<>>
 
 \* what the statement demands
-ExpectedServed(r) == { <<s, m>> \in Services \X AllMsgs : s \in r /\ m \in Handles[s] }
+ExpectedServed(r) == { <<n, m>> \in Names \X AllMsgs : \E t \in r : NameOf[t] = n /\ m \in Handles[t] }
 
 \* ServerState::add_handlers
-Add(s) ==
-  /\ services' = [services EXCEPT ![s] = (IF s \in present THEN @ ELSE {}) \cup Keys(s)]
-  /\ present' = present \cup {s}
-  /\ handlers' = handlers \cup Keys(s)
-  /\ reg' = reg \cup {s}
-  /\ hist' = Append(hist, <<"add", s>>)
+Add(t) ==
+  /\ services' = [services EXCEPT ![NameOf[t]] = (IF NameOf[t] \in present THEN @ ELSE {}) \cup Keys(t)]
+  /\ present' = present \cup {NameOf[t]}
+  /\ handlers' = handlers \cup Keys(t)
+  /\ reg' = reg \cup {t}
+  /\ hist' = Append(hist, <<"add", t>>)
   /\ exps' = Append(exps, ExpectedServed(reg'))
   /\ UNCHANGED held
 
@@ -53,7 +57,7 @@ Remove(s) ==
      ELSE /\ services' = [services EXCEPT ![s] = {}]
           /\ present' = present \ {s}
           /\ handlers' = IF FixD1 THEN handlers \ services[s] ELSE handlers \cap services[s]
-  /\ reg' = reg \ {s}
+  /\ reg' = { t \in reg : NameOf[t] # s }
   /\ hist' = Append(hist, <<"remove", s>>)
   /\ exps' = Append(exps, ExpectedServed(reg'))
   /\ UNCHANGED held
@@ -73,7 +77,7 @@ Release ==
   /\ exps' = Append(exps, ExpectedServed(reg))
   /\ UNCHANGED <<services, present, handlers, reg>>
 
-Next == Len(hist) < MaxLen /\ ((\E s \in Services : Add(s) \/ Remove(s) \/ Hold(s)) \/ Release)
+Next == Len(hist) < MaxLen /\ ((\E t \in Services : Add(t)) \/ (\E s \in Names : Remove(s) \/ Hold(s)) \/ Release)
 Spec == Init /\ [][Next]_vars
 
 \* ServerState::get_handler: dispatched iff a handler is present under the key
@@ -82,7 +86,7 @@ Served == handlers
 \* C13
 C13_ServedIffRegistered == Served = ExpectedServed(reg)
 \* a request is held only if its service was registered when it arrived
-C13_HeldWasRegistered == [][ \A s \in held' \ held : s \in reg ]_vars
+C13_HeldWasRegistered == [][ \A s \in held' \ held : \E t \in reg : NameOf[t] = s /\ "Ping" \in Handles[t] ]_vars
 
 Emit == IF EmitHist /\ Len(hist) = MaxLen
         THEN PrintT(<<"HIST", ToJson([hist |-> hist, exps |-> exps])>>)
